@@ -98,6 +98,10 @@ pub fn check_wellformed(env: &mut Env, sql: &str, r: &Result<QOut, QErr>, ctx: &
 pub fn parse_limit(sql: &str) -> Option<u64> {
     let up = sql.to_uppercase();
     let i = up.rfind(" LIMIT ")?;
+    // (the word inside a quoted identifier or string is no clause: `FROM t0" LIMIT 2"OFFSET 0`)
+    if up[..i].matches('"').count() % 2 == 1 || up[..i].matches('\'').count() % 2 == 1 || up[..i].matches('`').count() % 2 == 1 {
+        return None;
+    }
     let rest = up[i + 7..].trim();
     let tok: String = rest.chars().take_while(|c| c.is_ascii_digit()).collect();
     let after = rest[tok.len()..].trim_start();
